@@ -7,6 +7,111 @@ use proptest::prelude::*;
 
 pub struct C13;
 
+/// Endpoints variant: a real Client and Server with independently generated rate settings and backlogs in both
+/// directions; the ceiling of each direction is min(sender's max_send_rate, receiver's max_receive_rate).
+#[derive(Clone, Debug, serde::Serialize, serde::Deserialize)]
+pub struct EpRate {
+    pub seed: u64,
+    /// (max_send_rate, max_receive_rate) of the server / of the client
+    pub server_rates: (u32, u32),
+    pub client_rates: (u32, u32),
+    pub latency_us: [u32; 2],
+    pub period_us: u32,
+    pub flushes: u8,
+    /// (tick, from_client, size, count)
+    pub sends: Vec<(u16, bool, u16, u8)>,
+    pub ticks: u16,
+}
+
+#[derive(Clone, Debug, serde::Serialize, serde::Deserialize)]
+#[serde(untagged)]
+pub enum Case {
+    Pair(PairScenario),
+    Endpoints { endpoints: EpRate },
+}
+
+fn run_endpoints(c: &EpRate) -> CaseResult {
+    use crate::sim::world::*;
+    let mut classes: Vec<&'static str> = vec!["endpoints"];
+    let scfg = ServerCfg { ep: EpCfg { max_send_rate: c.server_rates.0.max(1472), max_receive_rate: c.server_rates.1.max(1472), ..EpCfg::default() }, ..ServerCfg::default() };
+    let ccfg = EpCfg { max_send_rate: c.client_rates.0.max(1472), max_receive_rate: c.client_rates.1.max(1472), ..EpCfg::default() };
+    let mut w = World::new(c.seed, &scfg);
+    let ci = w.add_client(&ccfg, LinkState { latency_us: c.latency_us, ..LinkState::default() });
+    let caddr = w.clients[ci].addr;
+    let period = c.period_us.max(1000) as u64;
+    let mut rmax = [0.0f64; 2]; // largest RTT estimate seen: [client as sender, server as sender]
+    let mut idx = [0u32; 2];
+    let mut backlog = [0usize; 2];
+    for tick in 0..c.ticks {
+        w.advance(period);
+        for (at, from_client, size, count) in c.sends.iter() {
+            if crate::engine::pick_index(*at, c.ticks as usize) == tick as usize {
+                for _ in 0..*count {
+                    let d = if *from_client { 0 } else { 1 };
+                    let payload = world_payload(c.seed, d as u8 * 100, idx[d], (*size as usize).max(5));
+                    idx[d] += 1;
+                    backlog[d] += payload.len();
+                    if *from_client {
+                        w.client_send(ci, payload, 0, 3);
+                    } else {
+                        w.server_send(ci, payload, 0, 3);
+                    }
+                }
+            }
+        }
+        w.step_server();
+        w.step_client(ci);
+        for _ in 0..c.flushes {
+            w.flush_server();
+            w.flush_client(ci);
+        }
+        if let Some(r) = w.clients[ci].client.as_ref().and_then(|cl| cl.rtt_s()) {
+            rmax[0] = rmax[0].max(r);
+        }
+        if let Some(r) = w.server.as_ref().and_then(|s| s.client(&caddr).and_then(|rc| rc.borrow().rtt_s())) {
+            rmax[1] = rmax[1].max(r);
+        }
+    }
+    let gap = period as f64 / 1e6;
+    let mut nontrivial = false;
+    for d in 0..2 {
+        let (from, ceiling) = if d == 0 { (caddr, (ccfg.max_send_rate as f64).min(scfg.ep.max_receive_rate as f64)) } else { (w.server_addr, (scfg.ep.max_send_rate as f64).min(ccfg.max_receive_rate as f64)) };
+        let frames: Vec<(u64, u64)> = w.wire.iter().filter(|r| r.from == from && r.bytes.first().map_or(false, |b| *b >= 10)).map(|r| (r.t_us, r.bytes.len() as u64)).collect();
+        if frames.len() > 6000 {
+            classes.push("skipped_oversize_history");
+            continue;
+        }
+        let total: u64 = frames.iter().map(|f| f.1).sum();
+        if backlog[d] as f64 > 2.0 * ceiling * (rmax[d] + 2.0 * gap) + 4.0 * 1472.0 && total as f64 > ceiling * (rmax[d] + 2.0 * gap) + 2.0 * 1472.0 {
+            nontrivial = true;
+            classes.push("endpoints_backlog_beyond_burst_allowance");
+        }
+        for i in 0..frames.len() {
+            let mut sum = 0u64;
+            for j in i..frames.len() {
+                sum += frames[j].1;
+                let dt = (frames[j].0 - frames[i].0) as f64 / 1e6;
+                // the bound of the statement, widened by two step gaps (credit is refilled per step; the known finding
+                // D21 spends up to one gap's worth early) and one more frame
+                let bound = ceiling * (dt + rmax[d] + 2.0 * gap) + 2.0 * 1472.0;
+                if sum as f64 > bound {
+                    return CaseResult::fail(
+                        "oracle:c13:endpoints:negotiated_ceiling_exceeded",
+                        format!(
+                            "{} put {sum} bytes on the wire within {dt:.3} s (from t={} us); min(its max_send_rate, the peer's max_receive_rate) = {ceiling} B/s allows {bound:.0} (largest RTT estimate {:.3} s, step gap {gap:.3} s); server rates (send, receive) {:?}, client rates {:?}",
+                            if d == 0 { "the client" } else { "the server" }, frames[i].0, rmax[d], c.server_rates, c.client_rates
+                        ),
+                    );
+                }
+            }
+        }
+    }
+    if c.server_rates.1 < c.client_rates.0.min(c.client_rates.1) || c.client_rates.1 < c.server_rates.0.min(c.server_rates.1) {
+        classes.push("endpoints_peer_receive_rate_is_the_binding_limit");
+    }
+    CaseResult::ok(nontrivial, classes)
+}
+
 /// Checks the leaky-bucket bound over every interval of frames emitted by endpoint `s`.
 /// `ceiling` in bytes per second. Returns the worst excess (bytes) or a violation.
 pub fn check_rate_bound(trace: &Trace, s: usize, ceiling: f64) -> Result<f64, Violation> {
@@ -81,14 +186,7 @@ pub fn check_rate_bound(trace: &Trace, s: usize, ceiling: f64) -> Result<f64, Vi
     Ok(worst)
 }
 
-impl Check for C13 {
-    type Case = PairScenario;
-
-    fn id(&self) -> &'static str {
-        "C13"
-    }
-
-    fn strategy(&self, tier: Tier) -> BoxedStrategy<PairScenario> {
+fn pair_strategy(tier: Tier) -> BoxedStrategy<PairScenario> {
         let p = GenParams { max_ticks: tier.pick(200, 500), max_sends: 8, max_frags: tier.pick(6, 20), low_bandwidth: true, tail: false, tight_alloc: false, small_windows: false, modes: [1, 2, 2, 3], ..GenParams::default() };
         let q = GenParams { small_windows: true, tight_alloc: true, ..p.clone() };
         // acknowledgement backlog shape: endpoint 0 has a tight ceiling, owes many ack groups (endpoint 1 sends
@@ -114,6 +212,29 @@ impl Check for C13 {
             sc
         });
         prop_oneof![3 => scenario_strategy(&p), 1 => scenario_strategy(&q), 2 => backlog].boxed()
+}
+
+impl Check for C13 {
+    type Case = Case;
+
+    fn id(&self) -> &'static str {
+        "C13"
+    }
+
+    fn strategy(&self, tier: Tier) -> BoxedStrategy<Case> {
+        let rate = || prop_oneof![3 => 1_472u32..60_000, 2 => 60_000u32..2_000_000, 1 => Just(2_000_000u32), 1 => Just(u32::MAX)];
+        let endpoints = (
+            any::<u64>(),
+            (rate(), rate()),
+            (rate(), rate()),
+            (prop_oneof![Just(0u32), 0u32..50_000], prop_oneof![Just(0u32), 0u32..50_000]),
+            prop_oneof![Just(1_000u32), Just(5_000u32), Just(16_000u32), Just(50_000u32)],
+            0u8..3,
+            proptest::collection::vec((any::<u16>(), any::<bool>(), prop_oneof![5u16..1500, 1500u16..20_000], 1u8..40), 1..12),
+            tier.pick(100u16, 300u16)..tier.pick(600u16, 2000u16),
+        )
+            .prop_map(|(seed, server_rates, client_rates, (l0, l1), period_us, flushes, sends, ticks)| Case::Endpoints { endpoints: EpRate { seed, server_rates, client_rates, latency_us: [l0, l1], period_us, flushes, sends, ticks } });
+        prop_oneof![5 => pair_strategy(tier).prop_map(Case::Pair), 1 => endpoints].boxed()
     }
 
     fn cases(&self, tier: Tier) -> u64 {
@@ -121,17 +242,21 @@ impl Check for C13 {
     }
 
     fn rule(&self) -> String {
-        "case = SimPair scenario with bandwidth ceilings log-spread over [1472 B/s, 20 MB/s] (and 2^32-1) on either side, backlogs from nothing to hundreds of kB, cadences with several flush() per step, dt = 0 and long pauses, loss / duplication / delay patterns that walk the rate controller through slow start, equation mode and no-feedback expiries. Oracle: for every pair of emitted frames i <= j of an endpoint, bytes(i..=j) <= C * ((t_j - t_i) + max rtt_s() reported in or just before the interval) + 1472 + one rounding byte per step in the interval. Non-trivial = the sender was credit-limited in at least one snapshot (negative credit with data queued). Distinct = distinct serialised scenario.".into()
+        "two case kinds. Endpoints (1 in 6): a real Client and Server with independently generated max_send_rate / max_receive_rate (1472 B/s .. 2 MB/s, 2^32-1), Reliable backlogs in both directions, 0-2 extra flushes per step; for every pair of frames of a sender, bytes <= min(its max_send_rate, the PEER's max_receive_rate) * (dt + largest RTT estimate + 2 step gaps) + 2 * 1472. Pair: SimPair scenario with bandwidth ceilings log-spread over [1472 B/s, 20 MB/s] (and 2^32-1) on either side, backlogs from nothing to hundreds of kB, cadences with several flush() per step, dt = 0 and long pauses, loss / duplication / delay patterns that walk the rate controller through slow start, equation mode and no-feedback expiries. Oracle: for every pair of emitted frames i <= j of an endpoint, bytes(i..=j) <= C * ((t_j - t_i) + max rtt_s() reported in or just before the interval) + 1472 + one rounding byte per step in the interval. Non-trivial = the sender was credit-limited in at least one snapshot (negative credit with data queued). Distinct = distinct serialised scenario.".into()
     }
 
     fn assumptions(&self) -> Vec<String> {
         vec![
-            "C is the HalfConnection's configured ceiling; that Client/Server configure it as min(local max_send_rate, peer max_receive_rate) is checked with the handshake (C07)".into(),
+            "in the Pair cases C is the HalfConnection's configured ceiling; that Client and Server configure it as min(local max_send_rate, peer max_receive_rate) is what the Endpoints cases check (with a bound two step gaps and one frame wider, which the per-step refill and the known finding D21 can use up)".into(),
             "\"current RTT estimate\" is read leniently as the largest rtt_s() observed in (or just before) the interval, which is what the leaky bucket actually guarantees".into(),
         ]
     }
 
-    fn run(&self, sc: &PairScenario) -> CaseResult {
+    fn run(&self, case: &Case) -> CaseResult {
+        let sc = match case {
+            Case::Pair(sc) => sc,
+            Case::Endpoints { endpoints } => return run_endpoints(endpoints),
+        };
         let mut sc = sc.clone();
         sc.normalize();
         let trace = SimPair::run(&sc);
